@@ -243,6 +243,9 @@ func (s *socket) schedulePing() {
 	s.pingIntervalTimer.Store(utils.SetTimeout(func() {
 		socket_log.Debug("writing ping packet - expecting pong within %dms", int64(s.server.Opts().PingTimeout()/time.Millisecond))
 		s.sendPacket(packet.PING, nil, nil, nil)
+		if verifhook.Enabled {
+			verifhook.Point("socket.ping.between", s)
+		}
 		s.resetPingTimeout()
 	}, s.server.Opts().PingInterval()))
 }
